@@ -3247,6 +3247,7 @@ def _check_entry_for_changes(
     root_path: bytes,
     filter_blob_callback: Callable[[Blob, bytes], Blob] | None = None,
     trust_ctime: bool = True,
+    honor_filemode: bool = False,
 ) -> bytes | None:
     """Check a single index entry for changes.
 
@@ -3256,6 +3257,9 @@ def _check_entry_for_changes(
       root_path: Root filesystem path
       filter_blob_callback: Optional callback to filter blobs
       trust_ctime: If True, use ctime for change detection (default: True)
+      honor_filemode: If True, a changed executable bit is a change; off by
+        default for callers that predate it, porcelain passes core.filemode
+        (core.filemode)
     Returns: tree_path if changed, None otherwise
     """
     if isinstance(entry, ConflictedIndexEntry):
@@ -3272,6 +3276,20 @@ def _check_entry_for_changes(
 
         if not stat.S_ISREG(st.st_mode) and not stat.S_ISLNK(st.st_mode):
             return None
+
+        # The entry's type (regular file or symlink) and, if file modes are
+        # honored, its executable bit are part of what is tracked: a chmod or
+        # a file replaced by a link with the same bytes is a change even if
+        # the content hashes the same.
+        if stat.S_ISLNK(st.st_mode) != stat.S_ISLNK(entry.mode):
+            return tree_path
+        if (
+            honor_filemode
+            and stat.S_ISREG(st.st_mode)
+            and stat.S_ISREG(entry.mode)
+            and bool(st.st_mode & stat.S_IXUSR) != bool(entry.mode & stat.S_IXUSR)
+        ):
+            return tree_path
 
         # Optimization: If stat matches index entry (mtime and size unchanged),
         # we can skip reading and filtering the file entirely. This is a significant
@@ -3304,6 +3322,7 @@ def get_unstaged_changes(
     preload_index: bool = False,
     trust_ctime: bool = True,
     max_stat: int | None = None,
+    honor_filemode: bool = False,
 ) -> Generator[bytes, None, None]:
     """Walk through an index and check for differences against working tree.
 
@@ -3315,6 +3334,9 @@ def get_unstaged_changes(
       trust_ctime: If True, use ctime for change detection (default: True)
       max_stat: If set, limit the number of stat operations performed.
         When the limit is reached, remaining files are assumed unchanged.
+      honor_filemode: If True, a changed executable bit is a change; off by
+        default for callers that predate it, porcelain passes core.filemode
+        (core.filemode)
     Returns: iterator over paths with unstaged changes
     """
     # For each entry in the index check the sha1 & ensure not staged
@@ -3353,6 +3375,7 @@ def get_unstaged_changes(
                         root_path,
                         filter_blob_callback,
                         trust_ctime,
+                        honor_filemode,
                     )
                     for tree_path, entry in entries
                 ]
@@ -3369,7 +3392,12 @@ def get_unstaged_changes(
             if max_stat is not None and stat_count >= max_stat:
                 return
             result = _check_entry_for_changes(
-                tree_path, entry, root_path, filter_blob_callback, trust_ctime
+                tree_path,
+                entry,
+                root_path,
+                filter_blob_callback,
+                trust_ctime,
+                honor_filemode,
             )
             stat_count += 1
             if result is not None:
